@@ -1156,6 +1156,92 @@ func (x *c18) wellKnownReplies(r *gen.Rand, n int) {
 	}
 }
 
+// remoteReplies: what a remote server answers to the federation client's own requests is remote data. The client is
+// driven through a scripted transport: the first request of a call is answered 404 (which sends send_join / send_leave
+// to the older endpoint) or 200, every later one 200, with a directed list of bodies - among them every short array
+// the "[200, body]" form of the v1 endpoints can be cut down to - and byte mutations of well-formed ones (ninth
+// seeding round, C18-S: "[200]" from the v1 send_join fallback).
+func (x *c18) remoteReplies(r *gen.Rand, w *world, n int) {
+	c := x.c
+	type script struct {
+		first404 bool
+		body     []byte
+	}
+	var cur script
+	var calls int
+	rt := c18Transport(func(req *http.Request) (*http.Response, error) {
+		calls++
+		status, body := 200, cur.body
+		if calls == 1 && cur.first404 {
+			status, body = 404, []byte(`{"errcode":"M_UNRECOGNIZED","error":"unknown endpoint"}`)
+		}
+		return &http.Response{StatusCode: status, Header: http.Header{"Content-Type": []string{"application/json"}}, Body: io.NopCloser(bytes.NewReader(body)), Request: req}, nil
+	})
+	id := serverIdentity("origin.example")
+	fc := fclient.NewFederationClient([]*fclient.SigningIdentity{{ServerName: "origin.example", KeyID: gmsl.KeyID(id.KeyID), PrivateKey: id.Priv}}, fclient.WithTransport(rt), fclient.WithTimeout(5*time.Second))
+	join := w.members[[2]string{authUsers[2], "join"}]
+	good := []byte(`{"state":[` + string(w.create.JSON()) + `],"auth_chain":[` + string(w.create.JSON()) + `],"origin":"remote.example","event":` + string(join.JSON()) + `}`)
+	directed := [][]byte{[]byte(`[200]`), []byte(`[]`), []byte(`[200,{}]`), []byte(`[200,null]`), []byte(`[404]`), []byte(`[200,` + string(good) + `]`), []byte(`[200,` + string(good) + `,3]`), []byte(`["200"]`), []byte(`[null]`), []byte(`[[]]`),
+		[]byte(`{}`), []byte(`null`), []byte(`"x"`), []byte(`5`), nil, []byte(`[200,{"state":5}]`), []byte(`{"state":null,"auth_chain":null,"event":null}`), []byte(`{"event":"` + `{}` + `"}`), []byte(`{"pdus":[null]}`), []byte(`{"pdus":5}`),
+		[]byte(`{"events":[null,5,"x"]}`), []byte(`{"room_version":5,"event":null}`), []byte(`{"room_version":"10","event":[]}`), good, []byte(strings.Repeat("[", 5000))}
+	run := func(name string, sc script) {
+		c.Case("remote-reply:"+name, map[string]any{"first_request_answered_404": sc.first404, "body_hex": fmt.Sprintf("%x", truncateBytes(sc.body, 200))}, func() {
+			c.NontrivialBytes([]byte(fmt.Sprintf("remote-reply|%v|%x", sc.first404, truncateBytes(sc.body, 96))))
+			c.Count("remote_replies")
+			do := func(entry string, f func(ctx context.Context)) {
+				cur, calls = sc, 0
+				x.step("FederationClient."+entry, func() {
+					ctx, cancel := context.WithTimeout(context.Background(), 5*time.Second)
+					defer cancel()
+					f(ctx)
+				})
+			}
+			do("SendJoin", func(ctx context.Context) { _, _ = fc.SendJoin(ctx, "origin.example", "remote.example", join) })
+			do("SendJoinPartialState", func(ctx context.Context) { _, _ = fc.SendJoinPartialState(ctx, "origin.example", "remote.example", join) })
+			do("SendLeave", func(ctx context.Context) { _ = fc.SendLeave(ctx, "origin.example", "remote.example", join) })
+			do("SendKnock", func(ctx context.Context) { _, _ = fc.SendKnock(ctx, "origin.example", "remote.example", join) })
+			do("MakeJoin", func(ctx context.Context) {
+				if res, err := fc.MakeJoin(ctx, "origin.example", "remote.example", w.roomID, authUsers[2]); err == nil {
+					_ = res.GetJoinEvent()
+					_ = res.GetRoomVersion()
+				}
+			})
+			do("MakeLeave", func(ctx context.Context) { _, _ = fc.MakeLeave(ctx, "origin.example", "remote.example", w.roomID, authUsers[2]) })
+			do("GetEvent", func(ctx context.Context) { _, _ = fc.GetEvent(ctx, "origin.example", "remote.example", join.EventID()) })
+			do("GetEventAuth", func(ctx context.Context) { _, _ = fc.GetEventAuth(ctx, "origin.example", "remote.example", w.ver, w.roomID, join.EventID()) })
+			do("LookupState", func(ctx context.Context) {
+				if res, err := fc.LookupState(ctx, "origin.example", "remote.example", w.roomID, join.EventID(), w.ver); err == nil {
+					_ = res.GetStateEvents().UntrustedEvents(w.ver)
+					_ = res.GetAuthEvents().UntrustedEvents(w.ver)
+				}
+			})
+			do("LookupStateIDs", func(ctx context.Context) { _, _ = fc.LookupStateIDs(ctx, "origin.example", "remote.example", w.roomID, join.EventID()) })
+			do("LookupMissingEvents", func(ctx context.Context) {
+				_, _ = fc.LookupMissingEvents(ctx, "origin.example", "remote.example", w.roomID, fclient.MissingEvents{Limit: 5, EarliestEvents: []string{w.create.EventID()}, LatestEvents: []string{join.EventID()}}, w.ver)
+			})
+			do("Backfill", func(ctx context.Context) { _, _ = fc.Backfill(ctx, "origin.example", "remote.example", w.roomID, 5, []string{join.EventID()}) })
+			do("GetServerKeys", func(ctx context.Context) { _, _ = fc.GetServerKeys(ctx, "remote.example") })
+			do("LookupServerKeys", func(ctx context.Context) {
+				_, _ = fc.LookupServerKeys(ctx, "remote.example", map[keyReq]spec.Timestamp{{ServerName: "remote.example", KeyID: "ed25519:1"}: 0})
+			})
+			do("LookupProfile", func(ctx context.Context) { _, _ = fc.LookupProfile(ctx, "origin.example", "remote.example", authUsers[2], "") })
+			do("GetUserDevices", func(ctx context.Context) { _, _ = fc.GetUserDevices(ctx, "origin.example", "remote.example", authUsers[2]) })
+		})
+	}
+	for i, b := range directed {
+		if !c.Mine(i) {
+			continue
+		}
+		run("directed", script{first404: true, body: b})
+		run("directed", script{first404: false, body: b})
+	}
+	for k := 0; k < n; k++ {
+		base := gen.Pick(r, [][]byte{good, []byte(`[200,` + string(good) + `]`), []byte(`[200,{}]`), []byte(`{"pdus":[` + string(join.JSON()) + `],"origin":"remote.example","origin_server_ts":5}`), []byte(`{"room_version":"10","event":` + string(join.JSON()) + `}`)})
+		run("mutated", script{first404: r.Chance(0.5), body: mutateBytes(r, base)})
+	}
+	c.Floor("remote_replies", 2)
+}
+
 func truncateBytes(b []byte, n int) []byte {
 	if len(b) > n {
 		return b[:n]
@@ -1178,6 +1264,7 @@ func runC18(c *mon.Ctx) {
 	x.cyclicReferences(worlds)
 	x.eventAsJSONString(worlds)
 	x.wellKnownReplies(c.Rand("well-known"), c.Scale(800, 80000))
+	x.remoteReplies(c.Rand("remote-replies"), worlds["10"], c.Scale(400, 40000))
 	x.fieldEnumeration(r, versions, worlds)
 	x.byteMutation(r, versions, worlds, c.Scale(16000, 1600000), c.Scale(16000, 1600000))
 	c.Floor("field_cases_accepted_by_a_parser", 1000)
